@@ -52,6 +52,9 @@ def check_laws(vals, k):
         return bad
     if AB is not None and BA is not None and AB != BA:
         bad.append(('union_comm', 'A|B = %s but B|A = %s' % (vals[3], vals[4])))
+    if AA is not None and len(AA) > len(A):
+        # a union that is LARGER than its operand: finding D19 (key-0 nodes collapse or sort first) never explains that
+        bad.append(('union_grows', 'A|A = %s has more nodes than A = %s' % (vals[5], vals[0])))
     if AA is not None and AA != A:
         bad.append(('union_idem', 'A|A = %s but A = %s' % (vals[5], vals[0])))
     if AB is not None and len(AB) > len(A) + len(B):
